@@ -231,11 +231,14 @@ func BridgeSpec() Spec {
 		fix(BridgeReceive(A, "C01", "VCS-1", B, Eps, date(2020, 1, 1), date(2022, 1, 1), tx(2, "Polygon", Contract1))),   // case variant of source
 		fix(Mint(A, B3, C, "1", "0.5", tx(4, "polygon", ""))),
 		fix(Mint(A, B1, C, "1", "0", tx(2, "polygon", ""))), // same id as a BridgeReceive event: whichever comes first wins
+		fix(Mint(A, B3, C, "1", "0", tx(3, "polygon", ""))), // b3 lives in project key 3 of class key 1; tx 3 is also used by a BridgeReceive and a CreateBatch
+		fix(CreateBatch(A, "C01-002", date(2022, 1, 1), date(2023, 1, 1), true, tx(3, "polygon", ""), Iss(B, "1", "0"))),
 		fix(CreateBatch(A, "C01-001", date(2022, 1, 1), date(2023, 1, 1), true, tx(5, "polygon", Contract2), Iss(B, "3", "0"))),
 		fix(CreateBatch(A2, "C02-001", date(2022, 1, 1), date(2023, 1, 1), true, tx(1, "polygon", Contract1), Iss(B, "3", "0"))), // other class: same tx+contract is fine
 		fix(Bridge(B, "polygon", Cr(B3, "1"))),
 		fix(Bridge(B, "polygon", Cr(B3, "0.5"), Cr(B3, Eps))),
 		fix(Bridge(C, "Polygon", Cr(B3, "1"))),
+		fix(Bridge(B, "polygon", Cr(B3, "1"), Cr(B1, "1"))), // a bound batch followed by one without contract: must fail
 		fix(Cancel(B, B3, "1")),
 		fix(Seal(A, B3)),
 		fix(Send(B, C, B3, "2", "0")),
@@ -243,7 +246,7 @@ func BridgeSpec() Spec {
 		fix(Msg("gov:add-bridge-chain(POLYGON)", &basetypes.MsgAddAllowedBridgeChain{Authority: G.String(), ChainName: "POLYGON"})),
 	}
 	return Spec{Name: "bridge", Seeds: []explore.Seed{PreparedSeed("prepared")},
-		Events: append(good, bad...), DepthQuick: 5, DepthThor: 7, ExpectFail: expectFail(names(bad...)...), MinStates: 300}
+		Events: append(good, bad...), DepthQuick: 5, DepthThor: 7, ExpectFail: expectFail(append(names(bad...), "Bridge(B,polygon,"+B3+":1,"+B1+":1)")...), MinStates: 300}
 }
 
 // Large: the 34-significant-digit amount through every ledger.
@@ -347,6 +350,8 @@ func BasketLarge() Spec {
 	good := []E{
 		MintFresh(A, B1, B, Big, "0"),
 		MintFresh(A, B1, C, Big, "0"),
+		MintFresh(A, B1, B, Big35, "0"),
+		fix(Put(B, NCT, BC(B1, Big35))), // x 10^6 needs 35 significant digits: must be refused, not rounded
 		fix(Put(B, NCT, BC(B1, Big))),
 		fix(Put(C, NCT, BC(B1, Big))),
 		fix(Put(B, NCT, BC(B1, "1.000001"))),
@@ -358,7 +363,7 @@ func BasketLarge() Spec {
 		fix(BankSend("BankSend(B->C,1NCT)", B, C, coin(NCT, 1))),
 	}
 	return Spec{Name: "basket-large", Seeds: []explore.Seed{PreparedSeed("prepared")},
-		Events: good, DepthQuick: 6, DepthThor: 8, MinStates: 100}
+		Events: good, DepthQuick: 5, DepthThor: 7, ExpectFail: expectFail("Put(B,eco.uC.NCT,"+B1+":"+Big35+")"), MinStates: 100}
 }
 
 // Mixed: a cross-module alphabet (issuance, send, retire, basket, market,
